@@ -1,6 +1,7 @@
 """C11 - overlap iteration partitions its inputs into exact overlap groups."""
 import functools
 import itertools
+import re
 
 from .. import impl, sortcases as SC
 from ..common import exc_name, has_unmodelled
@@ -109,6 +110,69 @@ def run_impl(inputs, contigs, by_barcodes, limit=200):
         return None, exc_name(e)
 
 
+def recs_of(inputs):
+    """The raw case, as stored in a failure: per input, [rid, tumor, normal, chromosome, start, end] in stream order."""
+    return [[[x.rid, x.tumor, x.normal, x.chromosome, x.start, x.end] for x in inp] for inp in inputs]
+
+
+def inputs_of(recs):
+    return [[Rec(t, n, c, s, e, rid) for (rid, t, n, c, s, e) in inp] for inp in recs]
+
+
+def model_request(inputs, contigs, by_barcodes):
+    return {"op": "overlap.run", "by_barcodes": by_barcodes, "contigs": contigs or [],
+            "inputs": [[loc_of(r) for r in inp] for inp in inputs]}
+
+
+def eval_sorted(inputs, contigs, by_barcodes):
+    """One configuration of sorted inputs on the implementation + the property's oracle.
+    Returns (where, groups, exc, failures)."""
+    failures = []
+    groups, exc = run_impl(inputs, contigs, by_barcodes)
+    where = {"inputs": [[repr(x) for x in inp] for inp in inputs], "contigs": contigs, "by_barcodes": by_barcodes}
+    stored = dict(where, recs=recs_of(inputs))
+    if exc:
+        failures.append(dict(stored, what="overlap iteration over sorted inputs failed with %s" % exc, kind="exception"))
+        return where, groups, exc, failures
+    # partition
+    for k, inp in enumerate(inputs):
+        cat = [rid for g in groups for rid in g[k]]
+        if cat != [x.rid for x in inp]:
+            failures.append(dict(stored, what="concatenating slot %d over all groups does not reproduce input %d" % (k, k),
+                                 kind="partition", got=groups))
+            break
+    else:
+        if any(all(not s for s in g) for g in groups):
+            failures.append(dict(stored, what="an emitted group is empty", kind="empty-group", got=groups))
+        got = sorted((frozenset(rid for s in g for rid in s) for g in groups), key=lambda s: min(s) if s else -1)
+        want = components(inputs, by_barcodes)
+        if got != want:
+            failures.append(dict(stored, what="groups are not the connected components of the overlap graph",
+                                 kind="groups", expected=[sorted(c) for c in want], got=groups))
+        else:
+            # emitted in key order
+            order = "BarcodesAndCoordinate" if by_barcodes else "Coordinate"
+            byid = {x.rid: x for inp in inputs for x in inp}
+            mins = []
+            for g in groups:
+                members = [byid[rid] for s in g for rid in s]
+                mins.append(min(members, key=functools.cmp_to_key(lambda a, b: expected_cmp(loc_of(a), loc_of(b), order, contigs or []))))
+            if any(expected_cmp(loc_of(mins[k]), loc_of(mins[k + 1]), order, contigs or []) > 0 for k in range(len(mins) - 1)):
+                failures.append(dict(stored, what="groups are not emitted in key order", kind="group-order", got=groups))
+    return where, groups, exc, failures
+
+
+def eval_disorder(inputs, contigs, by_barcodes):
+    """One configuration with an out-of-order input: the iteration must report it.  Returns (exc, failures)."""
+    groups, exc = run_impl(inputs, contigs, by_barcodes)
+    failures = []
+    if exc is None:
+        failures.append({"what": "an out-of-order input was not reported", "kind": "unreported-disorder",
+                         "inputs": [[repr(x) for x in inp] for inp in inputs], "contigs": contigs, "by_barcodes": by_barcodes,
+                         "recs": recs_of(inputs), "got": groups})
+    return exc, failures
+
+
 def run(ctx):
     out = Outcome()
     out.rule = ("1-3 inputs, <= 7 intervals (quick) over an 8-point line (touching, nested, chained, identical, disjoint), 1-3 chromosomes, 1-3 barcode pairs, both grouping modes, "
@@ -129,48 +193,21 @@ def run(ctx):
     reqs, meta = [], []
     for (n_inputs, contigs, by_barcodes, items) in configs:
         inputs = build_inputs(n_inputs, contigs, by_barcodes, items)
-        reqs.append({"op": "overlap.run", "by_barcodes": by_barcodes, "contigs": contigs or [],
-                     "inputs": [[loc_of(r) for r in inp] for inp in inputs]})
+        reqs.append(model_request(inputs, contigs, by_barcodes))
         meta.append((inputs, contigs, by_barcodes))
     mo = ctx.driver.run(reqs)
     for r, m, (inputs, contigs, by_barcodes) in zip(reqs, mo, meta):
         out.evaluations += 1
-        groups, exc = run_impl(inputs, contigs, by_barcodes)
-        where = {"inputs": [[repr(x) for x in inp] for inp in inputs], "contigs": contigs, "by_barcodes": by_barcodes}
+        where, groups, exc, failures = eval_sorted(inputs, contigs, by_barcodes)
         i = {"groups": groups} if exc is None else {"exc": exc}
         if has_unmodelled(m):
             out.unmodelled += 1
         elif m != i:
             out.disagreements.append({"op": "overlap.run", "request": {k: r[k] for k in ("by_barcodes", "contigs")},
                                       "inputs": where["inputs"], "model": m, "impl": i})
+        out.failures += failures
         if exc:
-            out.failures.append(dict(where, what="overlap iteration over sorted inputs failed with %s" % exc, kind="exception"))
             continue
-        # partition
-        for k, inp in enumerate(inputs):
-            cat = [rid for g in groups for rid in g[k]]
-            if cat != [x.rid for x in inp]:
-                out.failures.append(dict(where, what="concatenating slot %d over all groups does not reproduce input %d" % (k, k),
-                                         kind="partition", got=groups))
-                break
-        else:
-            if any(all(not s for s in g) for g in groups):
-                out.failures.append(dict(where, what="an emitted group is empty", kind="empty-group", got=groups))
-            got = sorted((frozenset(rid for s in g for rid in s) for g in groups), key=lambda s: min(s) if s else -1)
-            want = components(inputs, by_barcodes)
-            if got != want:
-                out.failures.append(dict(where, what="groups are not the connected components of the overlap graph",
-                                         kind="groups", expected=[sorted(c) for c in want], got=groups))
-            else:
-                # emitted in key order
-                order = "BarcodesAndCoordinate" if by_barcodes else "Coordinate"
-                byid = {x.rid: x for inp in inputs for x in inp}
-                mins = []
-                for g in groups:
-                    members = [byid[rid] for s in g for rid in s]
-                    mins.append(min(members, key=functools.cmp_to_key(lambda a, b: expected_cmp(loc_of(a), loc_of(b), order, contigs or []))))
-                if any(expected_cmp(loc_of(mins[k]), loc_of(mins[k + 1]), order, contigs or []) > 0 for k in range(len(mins) - 1)):
-                    out.failures.append(dict(where, what="groups are not emitted in key order", kind="group-order", got=groups))
         if any(sum(len(s) for s in g) >= 2 for g in groups):
             out.nontrivial.add(repr(where))
         out.distribution["groups"] += len(groups)
@@ -190,12 +227,59 @@ def run(ctx):
             continue
         inputs[k][a], inputs[k][a + 1] = inputs[k][a + 1], inputs[k][a]
         out.evaluations += 1
-        groups, exc = run_impl(inputs, contigs, by_barcodes)
-        if exc is None:
-            out.failures.append({"what": "an out-of-order input was not reported", "kind": "unreported-disorder",
-                                 "inputs": [[repr(x) for x in inp] for inp in inputs], "contigs": contigs, "by_barcodes": by_barcodes})
+        exc, failures = eval_disorder(inputs, contigs, by_barcodes)
+        out.failures += failures
         out.distribution["disorder:" + str(exc)] += 1
     return out
+
+
+_REPR = re.compile(r"^R(\d+)\((.*?)/(.*?) (\S+):(-?\d+)-(-?\d+)\)$")
+
+
+def stored_recs(failure):
+    """The raw inputs of a stored failure; files written before `recs` was stored carry only the printed form
+    'R<rid>(<tumor>/<normal> <chrom>:<start>-<end>)', which is parsed back (None when that is not possible)."""
+    if "recs" in failure:
+        return [[tuple(x) for x in inp] for inp in failure["recs"]]
+    try:
+        recs = []
+        for inp in failure["inputs"]:
+            row = []
+            for text in inp:
+                m = _REPR.match(text)
+                rid, t, n, c, s, e = m.groups()
+                row.append((int(rid), t, n, c, int(s), int(e)))
+            recs.append(row)
+        return recs
+    except (KeyError, AttributeError, TypeError, ValueError):
+        return None
+
+
+def replay_case(ctx, failure):
+    """Re-evaluate the stored inputs on the current implementation; the failures they produce now ([] = property holds)."""
+    recs = stored_recs(failure)
+    if recs is None or "by_barcodes" not in failure:
+        return None
+    contigs, by_barcodes = failure.get("contigs"), failure["by_barcodes"]
+    inputs = inputs_of(recs)
+    print("replay C11: LocatableOverlapIterator over %d input(s), by_barcodes=%s, contigs=%s" % (len(inputs), by_barcodes, contigs))
+    for k, inp in enumerate(inputs):
+        print("  input %d: %s" % (k, " ".join(repr(x) for x in inp) or "(empty)"))
+    if failure.get("kind") == "unreported-disorder":
+        exc, failures = eval_disorder(inputs, contigs, by_barcodes)
+        print("  (one input is out of order: the iteration has to report it)")
+        print("  implementation: %s" % ("raised %s" % exc if exc else "no error, groups (record ids per input) %s" % failures[0]["got"]))
+    else:
+        where, groups, exc, failures = eval_sorted(inputs, contigs, by_barcodes)
+        print("  implementation: %s" % ("raised %s" % exc if exc else "groups (record ids per input) %s" % groups))
+        print("  expected groups (connected components of the overlap graph): %s" % [sorted(c) for c in components(inputs, by_barcodes)])
+        if getattr(ctx, "driver_ok", True) and ctx.driver.available():
+            m = ctx.driver.run([model_request(inputs, contigs, by_barcodes)])[0]
+            i = {"groups": groups} if exc is None else {"exc": exc}
+            print("  model: %s (%s)" % (m, "outside the model" if has_unmodelled(m) else "same as the implementation" if m == i else "DIFFERS from the implementation"))
+    for f in failures:
+        print("  oracle: %s" % f["what"])
+    return failures
 
 
 def search(ctx):
